@@ -1,5 +1,6 @@
 import Feox.Props.C03
 import Feox.Fmt.Commit
+import Feox.Fmt.ScanOk
 /-!
 # C03 (continued) — the two transactions of the device protocol, on the bytes
 
@@ -72,5 +73,25 @@ theorem crash_during_write_on_bytes {img0 img : Image} {v lo total : Nat} {info 
   obtain ⟨_, ht', hscan⟩ := replay_on_bytes hrep ht htot0 htot h64 s e hse hlo he hal hagree
   rw [hfil] at ht' hscan
   exact ⟨ht', hscan⟩
+
+/-- **Recovery of an image that represents a tiled data area succeeds**, from the state recovery starts
+the scan in (the empty free-space manager of the device): no format error (`byte_scan_of_tiled`) and no
+refusal of the free-space manager either (`Fmt.scan_rep_tiled_ok`: every release the loop issues is a
+valid one, `C06.release_ok_iff`).  The table it ends with is "newest timestamp wins" over exactly the
+tiling's records, the clock has seen exactly their timestamps. -/
+theorem recovery_of_tiled_image_succeeds {img : Image} {v total dev : Nat} {o : Opts} {journal : List (Nat × Nat)}
+    {info : Gen → RecMeta} {d : Disk} {L : List Rec} (hro : o.readOnly = false)
+    (hrep : Rep img v FEOX_DATA_START_BLOCK total info d) (ht : TiledBy d total L FEOX_DATA_START_BLOCK)
+    (hd0 : 0 < dev) (htot : dev / FEOX_BLOCK_SIZE = total) (h64 : total < 2 ^ 64) :
+    ∃ st', scan img v total o journal FEOX_DATA_START_BLOCK { fsm := Feox.Fsm.setDeviceSize Feox.Fsm.new dev } = .ok st' ∧
+      st'.live = L.foldl (fun lv r => absorbLive lv (liveOf info r)) [] ∧
+      st'.clock = L.map (fun r => ((info r.2.1).key, (info r.2.1).ts)) := by
+  obtain ⟨st', hst'⟩ := scan_rep_tiled_ok (o := o) (journal := journal) hro hrep hd0 htot h64
+    (total - FEOX_DATA_START_BLOCK) FEOX_DATA_START_BLOCK L _ (Nat.le_refl _) (Nat.le_refl _) ht (scanInv_init dev total)
+  have hgo := scan_rep_tiled (o := o) (journal := journal) hro hrep (total - FEOX_DATA_START_BLOCK) FEOX_DATA_START_BLOCK L
+    { fsm := Feox.Fsm.setDeviceSize Feox.Fsm.new dev } (Nat.le_refl _) (Nat.le_refl _) ht
+  rw [hst'] at hgo
+  simp only [GoodOutcome, List.nil_append] at hgo
+  exact ⟨st', hst', hgo.2, hgo.1⟩
 
 end Feox.C03
